@@ -54,6 +54,22 @@ func (ex *Exec) goroutineMain(g *goroutine, body func(), isMain bool) {
 			return
 		}
 		g.done = true
+		// discharge deferred assertions before the path's outcome is decided
+		if pa, isAbort := r.(pathAbort); !isAbort || pa.kind == "done" {
+			if _, isEngine := r.(error); r == nil || !isEngine {
+				func() {
+					defer func() {
+						if r2 := recover(); r2 != nil {
+							r = r2
+						}
+					}()
+					if r == nil && !isMain {
+						return // a finished background goroutine does not end the path
+					}
+					ex.flushAsserts()
+				}()
+			}
+		}
 		switch p := r.(type) {
 		case nil:
 			if isMain {
